@@ -9,21 +9,21 @@ TECH = "deterministic simulation with fault injection: "
 CLAIMED = {
     "C01": dict(level="exploration", ref="DESIGN.md 5/C01",
         text="Seeded search over (problem, solver config, fork-join schedule, pool layout, clock policy with stalls, hash order) tuples; every returned solution document is replayed leg by leg by an independent reference model (R-feas). A clean batch is evidence over the sampled space, not proof.",
-        note="Trusts the harness reference model of the pragmatic format semantics (DESIGN Appendix A); leaf tasks atomic; required breaks / recharge / clustering not generated.",
+        note="Trusts the harness reference model of the pragmatic format semantics (DESIGN Appendix A, 9.7); leaf tasks atomic. User relations (derived from a first solve so that they are consistent, rules relation-vehicle/order/contiguity/missing), vicinity clustering, recharge stations, time-dependent matrices and required breaks are generated; tours with a clustered stop or a required break are judged on bookkeeping and time-independent rules only; known-finding domains (non-metric / randomly flagged matrices, reloads, shared resources, clustering, time-dependent routing) are listed in known_findings.json by rule and structural signature.",
         tech=TECH + "full solves under a seeded plan-driven fork-join executor, simulated clock and seeded hash order; feasibility oracle over the returned document"),
     "C02": dict(level="exploration", ref="DESIGN.md 5/C02",
         text="Same simulated full solves; the returned document is checked as an exact partition of plan jobs over tours and the unassigned list, tours against fleet definition, markers against shift definition (R-part).",
-        note="Trusts the harness partition oracle; job bookkeeping features generated: multi-task jobs, breaks, reloads, decomposition, interrupted runs by clock stall.",
+        note="Trusts the harness partition oracle; job bookkeeping features generated: multi-task jobs, optional and required breaks, reloads, recharge stations (each activity matched to a distinct one of the shift), vicinity clustering with filtering, user relations, decomposition, interrupted runs by clock stall.",
         tech=TECH + "full solves under seeded schedules/clocks; partition oracle over the returned document"),
     "C03": dict(level="exploration", ref="DESIGN.md 5/C03",
         text="Same simulated full solves; arrival/departure, per-stop load, cumulative distance, per-tour and total statistic and place tags are recomputed from the problem, the matrices and the reported visiting order only (R-stat), +-1 time unit, exact integers elsewhere.",
-        note="Replay starts from the reported (truncated) departure: the one-unit tolerance is sound for any profile scale; cost compared with uniform time cost (pragmatic format).",
+        note="Replay starts from the reported (truncated) departure: the one-unit tolerance is sound for any profile scale; with time-dependent matrices (legs priced at the time they are left, documented interpolation) the tolerance grows per leg with the slope of the travel time; which task/place an activity stands for is decided by consistency with the reported times; cost compared with uniform time cost (pragmatic format); times of tours with clustered stops or required breaks are not replayed.",
         tech=TECH + "full solves under seeded schedules/clocks; statistic/schedule recomputation oracle"),
 }
 
 CLAIMED["C04"] = dict(level="exploration", ref="DESIGN.md 5/C04",
     text="Seeded operator histories: a consistent individual is driven through scripts of 1..N steps over all shipped ruins, recreates, local operators and search operators under the simulated scheduler, clock (inner deadlines), hash order and optional counting quota; after every step the child is checked by R-inv (job bookkeeping, registry vs tours, tour well-formedness, hard constraints via the document oracles) and the parent digest must be unchanged.",
-    note="Operators built through public constructors with default-heuristic parameter ranges; ruin outputs are refreshed the way the next recreate does (InsertionContext::restore) before time rules are judged; no relations/locks in this scenario.",
+    note="Operators built through public constructors with default-heuristic parameter ranges; ruin outputs are refreshed the way the next recreate does (InsertionContext::restore) before time rules are judged; one case in five runs on a problem with user relations (derived from a first solve, pinning rules judged after every step; a case whose relation tours as built by the solver already break a hard rule is outside the premise and discarded).",
     tech=TECH + "operator-history search with per-step invariant checking against reference models; parent-unchanged digest")
 
 CLAIMED["C07"] = dict(level="fault_enumeration", ref="DESIGN.md 5/C07",
@@ -38,7 +38,7 @@ CLAIMED["C05"] = dict(level="exploration", ref="DESIGN.md 5/C05",
 
 CLAIMED["C15"] = dict(level="exploration", ref="DESIGN.md 5/C15",
     text="Plan differential: for seeded ruined-and-refreshed states the real PositionInsertionEvaluator::evaluate_all is executed under many split trees, leaf orders and worker counts of the plan-driven executor (only trees rayon can produce, incl. the flat_map rule that no leaf spans two tours) and compared with the sequential single-leaf scan and with the minimum over independent per-(tour, job) evaluations; one case in four is a full solve under a generated pool layout judged by the document oracles.",
-    note="Equality is owed on: deterministic selection (BestResultSelector, exhaustive legs), single-task jobs (multi-task placement is greedy and accumulator dependent by design, C06), metric integer matrices, scale 1, default goal; cost vectors are compared up to floating point noise (1e-6 + 1e-9 relative).",
+    note="Equality is owed on: deterministic selection (BestResultSelector, exhaustive legs), single-task and one-pickup-one-delivery jobs (every other multi-task shape gets its task permutations sampled at random on each evaluation), metric integer matrices, scale 1, goals made of minimize-unassigned / minimize-tours / one routing-cost objective in any order; cost vectors are compared up to floating point noise (1e-6 + 1e-9 relative).",
     tech=TECH + "differential execution of the same fork-join under seeded split plans vs sequential references")
 
 NOT_APPLICABLE = {
@@ -59,7 +59,7 @@ CLAIMED["C08"] = dict(level="exploration", ref="DESIGN.md 5/C08",
 
 CLAIMED["C12"] = dict(level="fault_enumeration", ref="DESIGN.md 5/C12",
     text="Positives: full solves under the simulator (seeded fork-join plans, clock policies and stalls, hash order, generated configs); every emitted solution which the independent reference oracle finds valid must be accepted by the bundled checker, also after any/sequence/strict relations derived from the solution itself are added to the problem. Negatives: for each such accepted solution single-breach mutants of 13 classes are enumerated at every applicable site (quick: a seeded subset of <= 60 sites per solution; thorough: all) and each mutant, once the reference oracle confirms it is invalid (relations and demanded breaks: by construction), must be rejected; a checker panic is neither.",
-    note="Exhaustive over sites x classes per stored solution in the thorough tier; solutions are sampled. Multi-task jobs get the unique place tags the checker documents it needs. Required breaks, recharge, clustering and solver-side relations are not generated; cost is not mutated (the checker documents that cost is ignored).",
+    note="Exhaustive over sites x classes per stored solution in the thorough tier; solutions are sampled. Multi-task jobs get the unique place tags the checker documents it needs. One case in five is solved on a problem with user relations (derived from a first solve): the solver's answer must satisfy the checker's relation rules as well. Required breaks and clustering are not generated here (the reference oracle does not replay the times of such tours, so it could not decide whether a rejection is wrong), nor time-dependent matrices (the checker states that it does not implement them) and recharge stations; cost is not mutated (the checker documents that cost is ignored).",
     tech=TECH + "single-breach fault enumeration over solution documents emitted by simulated solves, bundled checker vs independent reference oracle")
 
 CLAIMED["C14"] = dict(level="exploration", ref="DESIGN.md 5/C14",
